@@ -174,7 +174,8 @@ Definition m_length (a : args) : list (list Z) :=
   bytearr 32%Z ++ bytearr 64%Z ++ viewarr ++ bytearr 32%Z ++ viewarr.
 
 (* concat: [left validity] [right validity] n left strings, n right strings;
-   output for Utf8, LargeUtf8, Utf8View: validity group followed by n byte groups *)
+   output for Utf8, LargeUtf8, Utf8View, then left++right++left (concat_elements_utf8_many): validity group
+   followed by n byte groups *)
 Definition opts (vs : list (list N)) (valid : list bool) : list (option (list N)) :=
   map (fun x : list N * bool => if snd x then Some (fst x) else None) (combine vs valid).
 Definition out_opts (l : list (option (list N))) : list (list Z) :=
@@ -186,7 +187,10 @@ Definition s_concat (a : args) : list (list Z) :=
   let ls := rows a 2 n in let rs := rows a (2 + n) n in
   let one := out_opts (map (fun x => option_map utf8 (concat_spec (option_map cps_of (fst x)) (option_map cps_of (snd x))))
                            (combine (opts ls lv) (opts rs rv))) in
-  one ++ one ++ one.
+  let many := out_opts (map (fun x => option_map utf8 (concat_spec (concat_spec (option_map cps_of (fst x)) (option_map cps_of (snd x)))
+                                                                   (option_map cps_of (fst x))))
+                            (combine (opts ls lv) (opts rs rv))) in
+  one ++ one ++ one ++ many.
 Definition m_concat (a : args) : list (list Z) :=
   let lv := bools_of (arg 0 a) in let rv := bools_of (arg 1 a) in
   let n := List.length lv in
@@ -194,7 +198,10 @@ Definition m_concat (a : args) : list (list Z) :=
   let r := concat_elements_m (layout_offsets garbage_pre ls) (layout_data garbage_pre ls [97%N])
                              (layout_offsets [] rs) (layout_data [] rs []) in
   let one := out_strings (union_valid lv rv) (values_of (fst r) (snd r)) in
-  one ++ one ++ one.
+  (* concat_elements_utf8_many [l; r; l] : the two-array loop applied twice *)
+  let r2 := concat_elements_m (fst r) (snd r) (layout_offsets garbage_pre ls) (layout_data garbage_pre ls [97%N]) in
+  let many := out_strings (union_valid lv rv) (values_of (fst r2) (snd r2)) in
+  one ++ one ++ one ++ many.
 
 (* regexp: [mode; layout; n; k] [validity] n haystacks, k LIKE patterns, k regex source texts
    (the harness' transcription of regex_like); row i is matched against text (i mod k) with flag "s".
